@@ -6,6 +6,8 @@
                               when ids are used only as keys of the insertion-ordered TypeData table;
      emit_perm_invariant      the value computed from a set does not depend on its iteration order when the set is sorted before
                               use (possibly after an element-wise map), or used only for membership tests, or only for its size;
+     key_sorted_perm_invariant / key_sorted_ties_exposed   sorted(S, key=k) (a stable sort by the keys) is a function of the set
+                              when k is injective on it, and is NOT when two elements share a key: they come out in iteration order;
      glob_delete_invariant / glob_write_invariant   deleting a listed set of files, or writing one file per listed item under
                               distinct names, does not depend on the listing order;
      run_history_independent  the files a plugin owns after a run do not depend on the directory's previous contents, when the
@@ -167,6 +169,55 @@ Proof.
   - rewrite (Permutation_length H). reflexivity.
 Qed.
 End Sets.
+
+(* sorted(S, key=k) / min / max with a key.  Python's sort is stable: it orders by the keys only, elements whose keys compare equal
+   stay in the order in which they were iterated.  isort above is that sort (insert puts x in front of the first y with
+   leb x y, and x was iterated before y), taken at the order "compare the keys". *)
+Section KeySorted.
+Variables (A B : Type).
+Variable lebB : B -> B -> bool.
+Hypothesis lebB_total : forall a b, lebB a b = true \/ lebB b a = true.
+Hypothesis lebB_antisym : forall a b, lebB a b = true -> lebB b a = true -> a = b.
+Hypothesis lebB_trans : forall a b c, lebB a b = true -> lebB b c = true -> lebB a c = true.
+Variable key : A -> B.
+Definition leb_key (a b : A) : bool := lebB (key a) (key b).
+Definition sort_by_key (l : list A) : list A := isort A leb_key l.
+
+(* with an INJECTIVE key the result is a function of the set alone ... *)
+Theorem key_sorted_perm_invariant : (forall a b, key a = key b -> a = b) ->
+  forall l l', Permutation l l' -> sort_by_key l = sort_by_key l'.
+Proof.
+  intros inj l l' H. unfold sort_by_key. apply isort_perm; [| | |exact H]; unfold leb_key.
+  - intros a b. apply lebB_total.
+  - intros a b H1 H2. apply inj. apply lebB_antisym; assumption.
+  - intros a b c. apply lebB_trans.
+Qed.
+
+(* ... and with any key the KEYS come out in the same order (what differs is which of the tied elements stands where) *)
+Lemma map_insert_key : forall x l, map key (insert A leb_key x l) = insert B lebB (key x) (map key l).
+Proof.
+  intros x l. induction l as [|y r IH]; [reflexivity|].
+  cbn [insert map]. unfold leb_key at 1. destruct (lebB (key x) (key y)); cbn [map]; [reflexivity|]. rewrite IH. reflexivity.
+Qed.
+Lemma map_sort_by_key : forall l, map key (sort_by_key l) = isort B lebB (map key l).
+Proof.
+  unfold sort_by_key. induction l as [|x r IH]; [reflexivity|]. cbn [isort map]. rewrite map_insert_key, IH. reflexivity.
+Qed.
+Theorem key_sorted_keys_invariant : forall l l', Permutation l l' -> map key (sort_by_key l) = map key (sort_by_key l').
+Proof.
+  intros l l' H. rewrite !map_sort_by_key. apply isort_perm; try assumption. apply Permutation_map. exact H.
+Qed.
+End KeySorted.
+
+(* without injectivity the iteration order of the set shows: two elements with the same key come out in the order they went in
+   (site class SSortedByKey, not covered) *)
+Theorem key_sorted_ties_exposed : forall (A B : Type) (lebB : B -> B -> bool) (key : A -> B) (x y : A),
+  lebB (key x) (key y) = true -> lebB (key y) (key x) = true -> x <> y ->
+  Permutation [x; y] [y; x] /\ sort_by_key A B lebB key [x; y] <> sort_by_key A B lebB key [y; x].
+Proof.
+  intros A B lebB key x y XY YX D. split; [apply perm_swap|].
+  unfold sort_by_key, leb_key. cbn [isort insert]. rewrite XY, YX. intros E. injection E as E _. exact (D E).
+Qed.
 
 (* ------------------------------------------------------------------------------------------------ 3. the output directory *)
 Section FS.
@@ -380,7 +431,10 @@ End Memo.
 
 (* ------------------------------------------------------------------------------------------------ 6. site table *)
 Inductive site_class :=
-| SSorted        (* sorted(...) applied before any order-dependent use                  -> emit_perm_invariant (CSorted / CMapSorted) *)
+| SSorted        (* sorted(...) applied before any order-dependent use, no key or a key that is
+                    injective for syntactic reasons           -> emit_perm_invariant (CSorted / CMapSorted), key_sorted_perm_invariant *)
+| SSortedByKey   (* sorted/min/max(..., key=k), k not known to be injective: elements with equal keys keep the iteration
+                    order of the set (key_sorted_ties_exposed): NOT covered *)
 | SMember        (* used only in `x in S` tests                                        -> emit_perm_invariant (CMember) *)
 | SSize          (* only len(S) / truth value                                           -> emit_perm_invariant (CSize) *)
 | SKeyOnly       (* a random id used as dict key / in a membership test on such a dict -> emit_id_invariant *)
@@ -393,7 +447,7 @@ Inductive site_class :=
 | SMemoPure      (* functools cache over a pure function of immutable arguments        -> memo_history_independent *)
 | SModState      (* module-level state changed by a function: output may depend on earlier generations: NOT covered *)
 | SExposed.      (* iteration order or id value can reach the output: NOT covered *)
-Definition covered (c : site_class) : bool := match c with SExposed | SModState => false | _ => true end.
+Definition covered (c : site_class) : bool := match c with SExposed | SSortedByKey | SModState => false | _ => true end.
 Definition stateless (c : site_class) : bool := match c with SModState => false | _ => true end.
 Record site := mkSite { s_file : string; s_line : nat; s_what : string; s_class : site_class }.
 (* a plugin either removes its owned pattern before writing or always writes the same fixed names *)
